@@ -293,12 +293,13 @@ fn range_call_plan(p: &mut Prng, sw: &Swarm, w: usize, db: usize) -> Vec<Plan> {
     // faults land inside the call: on the first draw, or right after a (possible) rejection
     let fault_at = if p.chance(1, 2) { 0 } else { 1 + p.below(2) as usize };
     let lead = 1 + p.below(3) as usize;
+    let mut long_stall_used = false;
     for i in 0..lead {
         if let (Some(fp), true) = (&f, i == fault_at) {
             plan.push(fp.clone());
         }
         plan.push(first_word(p, sw, w, db));
-        if sw.fault_stall && p.chance(1, 6) {
+        if sw.fault_stall && p.chance(1, 6) && !long_stall_used {
             // how long the source stays stuck on the rejected word; occasionally very long (a retry cap in the
             // sampler, if there were one, would be crossed)
             let k = match p.below(40) {
@@ -309,6 +310,7 @@ fn range_call_plan(p: &mut Prng, sw: &Swarm, w: usize, db: usize) -> Vec<Plan> {
                 38 => 65 + p.below(240),
                 _ => [99, 100, 101, 127, 128, 129, 255, 256, 257, 999, 1000, 1001, 1023, 1024, 1025][p.below(15) as usize],
             };
+            long_stall_used = k > 64;
             for _ in 0..k {
                 plan.push(Plan::Repeat);
             }
